@@ -177,7 +177,7 @@ Lemma arch_init_shape cpu a reset s :
              errno (m_ring s') = 0%Z /\ earliest (m_ring s') = earliest (m_ring s) /\ next (m_ring s') = next (m_ring s) /\
              stat (m_ring s') = stat (m_ring s) /\ cont (m_ring s') = cont (m_ring s) /\
              m_ooo s' = m_ooo s /\ m_ptrs s' = m_ptrs s /\ m_arch s' = m_arch s /\ m_arch_type s' = m_arch_type s /\
-             m_bound s' = m_bound s.
+             m_bound s' = m_bound s /\ m_ring s' = set_errno 0%Z (m_ring s).
 Proof.
   unfold arch_steps_ok, arch_init_run. intros Hst Hreq. rewrite Hreq. cbn [negb].
   destruct (ai_steps a) as [|x1 l1]; [discriminate|].
